@@ -546,9 +546,6 @@ package ast
 //@   invariant@3 forall j int :: 0 <= j && j < $i && (str_contains($keys[j], name) || str_contains(workingMem.expressionAtomSnapshotMap[$keys[j]].GrlText, name)) ==> !workingMem.expressionAtomSnapshotMap[$keys[j]].Evaluated
 
 // one node per distinct snapshot text (C07 layer 1, C13): an existing resident with an equal snapshot is returned, else the argument is filed
-//@ extern func (e *Expression) GetSnapshot() (s)
-//@   isfunc
-//@   nopanic
 //@ extern func (e *ExpressionAtom) GetSnapshot() (s)
 //@   isfunc
 //@   nopanic
@@ -558,7 +555,7 @@ package ast
 //@ extern pure func fn_GetSnapshot_0(n Ref) string
 //@ func (workingMem *WorkingMemory) AddExpression(exp) (r)
 //@   serves C07 C13
-//@   requires workingMem != nil && workingMem.expressionSnapshotMap != nil
+//@   requires workingMem != nil && workingMem.expressionSnapshotMap != nil && exp != nil
 //@   nopanic
 //@   modifies map[string]*Expression
 //@   ensures old(has(workingMem.expressionSnapshotMap, fn_GetSnapshot_0(exp))) ==> r == old(workingMem.expressionSnapshotMap[fn_GetSnapshot_0(exp)]) && (forall k string :: has(workingMem.expressionSnapshotMap, k) == old(has(workingMem.expressionSnapshotMap, k)) && workingMem.expressionSnapshotMap[k] == old(workingMem.expressionSnapshotMap[k]))
@@ -1298,3 +1295,16 @@ package ast
 // brackets inside strings, sign and exponent all reach the snapshot
 //@ lemma[C07] const_piece_injective: forall a RV, b RV :: a.kind == b.kind && constPiece(a) == constPiece(b) && !isNaN(a.f) && !isNaN(b.f)
 //@        ==> (a.kind == 24 ==> a.s == b.s) && ((2 <= a.kind && a.kind <= 11) ==> a.bits == b.bits) && ((a.kind == 13 || a.kind == 14) ==> a.f == b.f) && (a.kind == 1 ==> a.b == b.b)
+
+
+// Expression.GetSnapshot: the format is pinned (tags SE( EL( ER( EA(, the negation mark, one spelling per operator)
+//@ pure func opSym(op int) string { return ite(op == OpMul, "*", ite(op == OpDiv, "/", ite(op == OpMod, "%", ite(op == OpAdd, "+", ite(op == OpSub, "-", ite(op == OpBitAnd, "&", ite(op == OpBitOr, "|",
+//@      ite(op == OpGT, ">", ite(op == OpLT, "<", ite(op == OpGTE, ">=", ite(op == OpLTE, "<=", ite(op == OpEq, "==", ite(op == OpNEq, "!=", ite(op == OpAnd, "&&", ite(op == OpOr, "||", ""))))))))))))))) }
+// (the format clauses of Expression.GetSnapshot - tags SE( EL( ER( EA(, negation mark, operator spelling - do not discharge
+// without a string theory once the builder's value passes through three joins; the function stays an ASSUMED deterministic
+// function of the node, see DESIGN)
+//@ extern func (e *Expression) GetSnapshot() (s)
+//@   isfunc
+//@   nopanic
+// the 15 operator spellings are pairwise different and none is a prefix of "ER(" (LL(1) disjointness, ground)
+//@ lemma[C07] opsym_injective: forall a int, b int :: 0 <= a && a <= 14 && 0 <= b && b <= 14 && opSym(a) == opSym(b) ==> a == b
